@@ -230,12 +230,18 @@ func (sv stringValue) Contains(substr Value) bool {
 	if !ok {
 		s = fmt.Sprint(substr.Interface())
 	}
-	return strings.Contains(sv.value.(string), s)
+	return strings.Contains(sv.str(), s)
+}
+
+// str is the string that a stringValue wraps. ValueOf goes by kind, so the value may be of
+// a defined string type (type Title string), which a type assertion to string rejects.
+func (sv stringValue) str() string {
+	return reflect.ValueOf(sv.value).String()
 }
 
 func (sv stringValue) PropertyValue(iv Value) Value {
 	if iv.Interface() == sizeKey {
-		return ValueOf(len(sv.value.(string)))
+		return ValueOf(len(sv.str()))
 	}
 	return nilValue
 }
